@@ -56,6 +56,16 @@ def run(chk):
     r = vlib.run_tlc("MC_Outage", cfg, timeout=1700)
     vlib.tlc_must_pass(r, cfg)
     chk.add_tlc(r)
+    # the findRegion path (nobody knows the region yet): the code's order "mark unavailable, then publish" keeps one establisher;
+    # the other order must produce TLC's counter-example (negative control of the model)
+    na = vlib.run_tlc("MC_Outage", "MC_Outage_markafter.cfg", timeout=600)
+    if na["violated"] != "OneEstablisher":
+        raise vlib.MachineryError("MC_Outage_markafter: expected the OneEstablisher counter-example, got %r" % (na,))
+    chk.cov["model_counterexample_publish_before_mark"] = str(na["violated"])
+    if thorough:
+        rm = vlib.run_tlc("MC_Outage", "MC_Outage_miss.cfg", timeout=1700)
+        vlib.tlc_must_pass(rm, "MC_Outage_miss")
+        chk.add_tlc(rm)
     if thorough:
         r2 = vlib.run_tlc("MC_Outage", "MC_Outage_close.cfg", timeout=1700)
         vlib.tlc_must_pass(r2, "MC_Outage_close")
